@@ -226,7 +226,7 @@ pub mod tree {
             tuple::{Row, Tuple, TupleBuilder},
         },
         tree::{
-            accessor::{Accessor, BtreeWriteAccessor},
+            accessor::{Accessor, BtreeReadAccessor, BtreeWriteAccessor},
             bplustree::{Btree, SearchResult},
         },
         types::{Blob, DataType, DataTypeKind, Int32, Int64, UInt64},
@@ -341,18 +341,23 @@ pub mod tree {
                 .with_accessor(BtreeWriteAccessor::new())
         }
 
+        fn read_btree(&self) -> Btree<BtreeReadAccessor> {
+            Btree::new(self.root, self.pager.clone(), self.min_keys, self.siblings)
+                .with_accessor(BtreeReadAccessor::new())
+        }
+
         fn row(&self, key: &Key, payload: &[u8]) -> Result<Row, String> {
             let mut v: Vec<DataType> = match (self.kind, key) {
                 (KeyKind::U, Key::U(k)) => vec![DataType::BigUInt(UInt64(*k))],
                 (KeyKind::I, Key::I(k)) => vec![DataType::BigInt(Int64(*k))],
-                (KeyKind::T, Key::T(k)) => vec![DataType::Blob(Blob::from(k.as_slice()))],
+                (KeyKind::T, Key::T(k)) => vec![DataType::Blob(Blob::from_unencoded_slice(k.as_slice()))],
                 (KeyKind::IT, Key::IT(a, b)) => vec![
                     DataType::Int(Int32(*a)),
-                    DataType::Blob(Blob::from(b.as_slice())),
+                    DataType::Blob(Blob::from_unencoded_slice(b.as_slice())),
                 ],
                 _ => return Err("key does not match the tree's key kind".into()),
             };
-            v.push(DataType::Blob(Blob::from(payload)));
+            v.push(DataType::Blob(Blob::from_unencoded_slice(payload)));
             Ok(Row::new(v.into_boxed_slice()))
         }
 
@@ -361,12 +366,6 @@ pub mod tree {
             TupleBuilder::from_schema(&self.schema)
                 .build(&row, 1)
                 .map_err(|e| e.to_string())
-        }
-
-        fn key_bytes(&self, key: &Key) -> Result<Box<[u8]>, String> {
-            let t = self.tuple(key, &[])?;
-            let offset = Tuple::keys_offset(self.schema.num_values());
-            Ok(Box::from(&t.effective_data()[offset..]))
         }
 
         pub fn insert(&mut self, key: &Key, payload: &[u8]) -> Result<(), String> {
@@ -385,8 +384,8 @@ pub mod tree {
         }
 
         pub fn remove(&mut self, key: &Key) -> Result<(), String> {
-            let kb = self.key_bytes(key)?;
-            self.btree().remove(self.root, &kb, &self.schema).map_err(|e| e.to_string())
+            let t = self.tuple(key, &[])?;
+            self.btree().remove_tuple(self.root, &t, &self.schema).map_err(|e| e.to_string())
         }
 
         fn decode(&self, row: Row) -> Result<(Key, Vec<u8>), String> {
@@ -416,9 +415,9 @@ pub mod tree {
         }
 
         pub fn lookup(&mut self, key: &Key) -> Result<Option<Vec<u8>>, String> {
-            let kb = self.key_bytes(key)?;
-            let mut bt = self.btree();
-            let r = bt.search(&kb, &self.schema).map_err(|e| e.to_string())?;
+            let t = self.tuple(key, &[])?;
+            let mut bt = self.read_btree();
+            let r = bt.search_tuple(&t, &self.schema).map_err(|e| e.to_string())?;
             let out = match r {
                 SearchResult::Found(pos) => {
                     let row = bt
@@ -433,31 +432,28 @@ pub mod tree {
             Ok(out)
         }
 
-        /// Forward scan: every entry in iteration order.
+        /// Forward scan: every entry in iteration order (same access pattern as the SeqScan operator).
         pub fn scan(&mut self) -> Result<Vec<(Key, Vec<u8>)>, String> {
-            let mut bt = self.btree();
+            let mut bt = self.read_btree();
             if bt.is_empty().map_err(|e| e.to_string())? {
                 return Ok(vec![]);
             }
-            let positions: Vec<_> = {
-                let iter = bt.iter_forward().map_err(|e| e.to_string())?;
-                iter.collect()
-            };
-            let mut out = Vec::with_capacity(positions.len());
-            for p in positions {
+            let mut cursor = bt.iter_forward().map_err(|e| e.to_string())?;
+            let mut out = Vec::new();
+            while let Some(p) = cursor.next() {
                 let p = p.map_err(|e| e.to_string())?;
-                let row = bt
+                let row = cursor
+                    .get_tree()
                     .get_row_at(p, &self.schema, &reader_snapshot())
                     .map_err(|e| e.to_string())?
                     .ok_or_else(|| "scanned entry not visible".to_string())?;
                 out.push(self.decode(row)?);
             }
-            bt.accessor_mut().map_err(|e| e.to_string())?.clear();
             Ok(out)
         }
 
         pub fn height(&mut self) -> Result<usize, String> {
-            self.btree().height().map_err(|e| e.to_string())
+            self.read_btree().height().map_err(|e| e.to_string())
         }
 
         pub fn flush(&mut self) -> std::io::Result<()> {
